@@ -93,6 +93,7 @@ def run(ctx):
     from .. import limits
     limits.huge_int_probe(ctx, "C10")
     limits.recursion_probe(ctx, "C10")
+    limits.declaration_corner_probe(ctx)
     cases = []
     for _ in range(ctx.n(3000, 30000)):
         facade, ops = GC.gen_chain(ctx.rnd, 4)
@@ -149,6 +150,25 @@ def run(ctx):
         for ops in ([("call", (v,)), ("call", (v,))], [("call", (v,)), ("len", (99,))], [("call", (v,)), ("alphabet", ("z",))],
                     [("alphabet", (v,)), ("alphabet", (v,))], [("contains", (v,)), ("len", (..., 0))], [("contains", (v,)), ("alphabet", ("z",))]):
             cases.append(declcorr.ChainCase("str", list(ops)))
+    # arguments of a NEIGHBOURING numeric kind at every position of every numeric refinement: ints (small, beyond 2**53, beyond
+    # the float range), bools, Decimal / Fraction / complex / numeric strings for float methods; floats (integral, huge,
+    # non-finite) and bools for int methods
+    import decimal
+    import fractions
+    near_float = [1, 0, -1, True, 2 ** 53 + 1, 2 ** 70, 10 ** 400, -10 ** 400, decimal.Decimal("1.5"), fractions.Fraction(1, 2), 1 + 0j, "1.5", None]
+    near_int = [1.0, 0.0, 1.5, 1e300, float("inf"), float("nan"), True, False, decimal.Decimal(1), "1", None, 2 ** 70]
+    for a in near_float:
+        for ops in ([("call", (a,))], [("min", (a,))], [("max", (a,))], [("call", (1.5,)), ("min", (a,))], [("call", (1.5,)), ("max", (a,))],
+                    [("min", (0.5,)), ("max", (a,))], [("max", (2.5,)), ("min", (a,))], [("precision", (a,))], [("call", (1.5,)), ("precision", (a,))]):
+            cases.append(declcorr.ChainCase("float", list(ops)))
+    for a in near_int:
+        for ops in ([("call", (a,))], [("min", (a,))], [("max", (a,))], [("call", (1,)), ("min", (a,))], [("call", (1,)), ("max", (a,))],
+                    [("min", (0,)), ("max", (a,))]):
+            cases.append(declcorr.ChainCase("int", list(ops)))
+    for a in near_int + near_float:
+        for facade in ("str", "list"):
+            for ops in ([("len", (a,))], [("len", (a, ...))], [("len", (..., a))], [("len", (0, a))]):
+                cases.append(declcorr.ChainCase(facade, list(ops)))
     # value, then one bound, then the other — every small combination, both orders (a later check must not shadow an earlier one)
     R = range(-2, 4)
     for v in R:
